@@ -9,6 +9,9 @@ EXTENDS Parser, TLC
 
 AnyVariant == {"-", "exact", "zero", "plus1", "p31", "max"}
 AllKinds == {"b", "t", "s", "m", "a", "c", "r", "R"}
+(* every kind that changes the encoding: the two unbounded-output findings (KF8, KF9) are    *)
+(* triggered by ANY malformed stream that decodes to a match with a huge length              *)
+MutKinds == {"t", "s", "m", "a", "c", "r", "R"}
 
 (* the table: one row per (finding, outcome it shows as); generated from the outcome classes *)
 (* observed on the pinned tree (quick and thorough tier)                                     *)
@@ -48,10 +51,10 @@ KFTable == {
      variants |-> {"-"}, kinds |-> {"m", "s"}],
     [id |-> "C15-KF8", outcome |-> "oom",
      parsers |-> {"comp.dictionary.decompress", "dict.decompress", "dict.opt.decompress"},
-     variants |-> {"-"}, kinds |-> {"m", "s"}],
+     variants |-> {"-"}, kinds |-> MutKinds],
     [id |-> "C15-KF9", outcome |-> "oom",
      parsers |-> {"simdlz77.decompress", "simdlz77.global.decompress", "simdlz77.x1.decompress", "simdlz77.x2.decompress", "simdlz77.x4.decompress", "simdlz77.x8.decompress"},
-     variants |-> {"-"}, kinds |-> {"c", "m"}],
+     variants |-> {"-"}, kinds |-> MutKinds],
     [id |-> "C15-KF10", outcome |-> "oom",
      parsers |-> {"simdenc.varint.decode_batch"},
      variants |-> {"p31"}, kinds |-> {"a", "b", "c", "m", "r", "s", "t"}],
